@@ -1,29 +1,33 @@
 #!/bin/bash
-# seed_recheck.sh: re-run the quick checks against every kept seeded mutation on the CURRENT /repo and framework
-# (patches written before the fix: commits are applied with --3way). Records "checks_current" in seeded/<id>/meta.json.
+# seed_recheck.sh <stream-name> <id>... : re-run the quick checks against kept seeded mutations on the CURRENT /repo and framework.
+# One fixed scratch worktree per stream (so cargo only rebuilds what the patch touches); patches written before later fix: commits
+# are applied with --3way. Records "checks_current" in seeded/<id>/meta.json. VERIF_DIR selects the framework copy to run (a git
+# worktree of /verif at the commit under test), so /verif's own build and evidence stay untouched.
+S=$1; shift
 VD=${VERIF_DIR:-/verif}
-for d in /verif/seeded/*/; do
-  id=$(basename $d); P=${id%-*}
-  WT=/tmp/rc-repo-$id
-  git -C /repo worktree add -q $WT HEAD || continue
-  if git -C $WT apply $d/patch.diff 2>/dev/null || git -C $WT apply --3way $d/patch.diff 2>/dev/null; then APPLIED=yes; else APPLIED=no; fi
-  git -C $WT checkout -q -- tests 2>/dev/null
-  RES=""
-  if [ $APPLIED = yes ]; then
+WT=/tmp/rc-repo-$S
+git -C /repo worktree remove --force $WT 2>/dev/null
+git -C /repo worktree add -q --detach $WT HEAD || exit 2
+cp /repo/Cargo.lock $WT/ 2>/dev/null
+for id in "$@"; do
+  d=/verif/seeded/$id/; P=${id%%-*}
+  git -C $WT checkout -q -- . ; git -C $WT clean -fdq -e Cargo.lock -e target
+  if git -C $WT apply $d/patch.diff 2>/dev/null || git -C $WT apply --3way $d/patch.diff 2>/dev/null || (cd $WT && patch -p1 -s -F3 < $d/patch.diff >/dev/null 2>&1); then
     CHECKS=$(python3 -c "import json;print(' '.join(sorted(json.load(open('$d/meta.json')).get('checks',{'$P':1}).keys())))")
+    RES=""
     for c in $CHECKS; do
       OUT=$(cd $VD && ELEMENTS_REPO=$WT ./check $c 2>&1 | grep -v "^KNOWN-FINDING")
       if echo "$OUT" | grep -q "^VIOLATION"; then V=caught; if echo "$OUT" | grep -q "no-failing-input-found"; then V=caught-no-input; fi; else V=MISSED; fi
       RES="$RES $c:$V"
     done
   else RES="patch-does-not-apply-after-fixes"; fi
-  git -C /repo worktree remove --force $WT
   python3 - "$d" "$RES" <<'PY'
 import json,sys
 d,res=sys.argv[1],sys.argv[2]
 m=json.load(open(d+'meta.json'))
 m['checks_current']=dict(x.split(':') for x in res.split()) if ':' in res else res
 json.dump(m,open(d+'meta.json','w'),indent=1)
-print(d.split('/')[-2],res)
+print(d.split('/')[-2],res, flush=True)
 PY
 done
+git -C /repo worktree remove --force $WT
